@@ -21,6 +21,9 @@ fn leak(s: String) -> &'static str {
 pub fn run_property(p: &str) {
     match p {
         "C01" => c01(),
+        "C04" => c04(),
+        "C05" => c05(),
+        "C09" => c09(),
         other => {
             eprintln!("no loom models for {other}");
             std::process::exit(2)
@@ -89,4 +92,94 @@ fn c01() {
         jobs.push(Job { harness: "c01", cfg: json!({"p": 2, "n": 1, "boxed": false, "flush": k % 2 == 1, "script": "ov", "jump_k": k, "pb": pb}) });
     }
     finish(rep, jobs, "Every schedule (DPOR, preemption bound as configured) of P producer threads x n appends through typed/boxed handles against the real writer thread, for every stream-result script and clock-jump position listed.");
+}
+
+fn c04() {
+    let rep = Report::from_args("C04", "model_checking");
+    let tier = rep.tier;
+    let pb = tier.pick(2, 3);
+    let mut jobs = Vec::new();
+    let mut add = |cfg: Value| jobs.push(Job { harness: "c04", cfg });
+    for n in 1..=tier.pick(3, 4) {
+        for after in 0..=n {
+            add(json!({"mode": "self", "n": n, "after": after, "cap": 8, "pb": pb}));
+        }
+    }
+    add(json!({"mode": "self", "n": 2, "after": 1, "cap": 8, "boxed": true, "pb": pb}));
+    // overflow: entries appended before the request may be displaced
+    for (cap, n) in [(1, 2), (1, 3), (2, 3)] {
+        for after in 1..=n {
+            add(json!({"mode": "self", "n": n, "after": after, "cap": cap, "pb": pb}));
+        }
+    }
+    for n in 1..=tier.pick(2, 3) {
+        add(json!({"mode": "separate", "n": n, "flushers": 1, "cap": 8, "pb": pb}));
+    }
+    add(json!({"mode": "separate", "n": 2, "flushers": 1, "cap": 8, "boxed": true, "pb": pb}));
+    add(json!({"mode": "separate", "n": 2, "flushers": 1, "cap": 1, "pb": pb}));
+    // two concurrent flush requests (expensive: bound 1 in quick)
+    add(json!({"mode": "separate", "n": 1, "flushers": 2, "cap": 8, "pb": tier.pick(1, 2)}));
+    for n in 0..=1 {
+        add(json!({"mode": "after-shutdown", "n": n, "pb": pb}));
+        add(json!({"mode": "after-shutdown", "n": n, "boxed": true, "pb": pb}));
+    }
+    for k in 0..tier.pick(10, 20) {
+        add(json!({"mode": "self", "n": 2, "after": 1, "cap": 8, "jump_k": k, "pb": pb}));
+        add(json!({"mode": "separate", "n": 1, "flushers": 1, "cap": 8, "jump_k": k, "pb": pb}));
+    }
+    finish(rep, jobs, "Every schedule (DPOR, preemption bound) of appends and flush requests (same thread, separate threads, two requesters, after shutdown, capacities 1/2/8, clock jump at every early clock read) against the real writer thread; the stream log is snapshotted inside the waker at the instant the flush future is completed and must already contain every entry appended before the request (or it was displaced) followed by a stream flush. A flush that never completes is a loom deadlock report.");
+}
+
+fn c05() {
+    let rep = Report::from_args("C05", "model_checking");
+    let tier = rep.tier;
+    let pb = tier.pick(2, 3);
+    let mut jobs = Vec::new();
+    for (main_n, prod_n) in [(0, 1), (1, 1), (1, 2), (2, 1)] {
+        for boxed in [false, true] {
+            for shut_down in [false, true] {
+                if shut_down && boxed && tier == Tier::Quick {
+                    continue;
+                }
+                jobs.push(Job { harness: "c05_drop", cfg: json!({"main_n": main_n, "prod_n": prod_n, "boxed": boxed, "shut_down": shut_down, "pb": pb}) });
+            }
+        }
+    }
+    jobs.push(Job { harness: "c05_drop", cfg: json!({"main_n": 2, "prod_n": 1, "boxed": true, "flush_first": true, "clone_drop": true, "pb": pb}) });
+    jobs.push(Job { harness: "c05_drop", cfg: json!({"main_n": 1, "prod_n": 1, "flush_first": true, "pb": pb}) });
+    for k in 0..tier.pick(8, 16) {
+        // periodic-flush deadline (2 s) or the 30 s shutdown timeout expiring at the k-th clock read
+        jobs.push(Job { harness: "c05_drop", cfg: json!({"main_n": 1, "prod_n": 1, "jump_k": k, "jump_secs": 2, "pb": pb}) });
+        jobs.push(Job { harness: "c05_drop", cfg: json!({"main_n": 1, "prod_n": 1, "jump_k": k, "jump_secs": 40, "pb": pb}) });
+    }
+    for (main_n, prod_n) in [(1, 0), (1, 1), (0, 2), (2, 1)] {
+        for boxed in [false, true] {
+            jobs.push(Job { harness: "c05_forget", cfg: json!({"main_n": main_n, "prod_n": prod_n, "boxed": boxed, "pb": pb}) });
+        }
+    }
+    finish(rep, jobs, "Histories of append / clone / drop-clone / flush / drop-handle / shut_down / forget on typed and boxed queues with a producer thread racing the shutdown, all schedules within the preemption bound: at the return of drop(handle) the stream log holds every entry appended before the drop began, then a flush, then the stream's Drop, and nothing is written afterwards; on the forget path the stream is drained, flushed and dropped and the writer thread exits within 3 fake flush intervals after the last handle is gone.");
+}
+
+fn c09() {
+    let rep = Report::from_args("C09", "model_checking");
+    let tier = rep.tier;
+    let pb = tier.pick(2, 3);
+    let mut jobs = Vec::new();
+    for cap in 1..=3u64 {
+        for extra in 1..=tier.pick(2u64, 3) {
+            for early in 0..=tier.pick(1u64, 2) {
+                jobs.push(Job { harness: "c09", cfg: json!({"cap": cap, "p": 1, "n": cap + extra, "early_permits": early, "pb": pb}) });
+            }
+        }
+    }
+    for cap in 1..=2u64 {
+        for early in 0..=1u64 {
+            jobs.push(Job { harness: "c09", cfg: json!({"cap": cap, "p": 2, "n": 2, "early_permits": early, "pb": pb}) });
+        }
+    }
+    if tier == Tier::Thorough {
+        jobs.push(Job { harness: "c09", cfg: json!({"cap": 2, "p": 2, "n": 3, "early_permits": 1, "pb": 2}) });
+        jobs.push(Job { harness: "c09", cfg: json!({"cap": 1, "p": 3, "n": 1, "early_permits": 0, "pb": pb}) });
+    }
+    finish(rep, jobs, "Capacities 1..3, one or two producers appending more entries than fit, a writer whose stream blocks on a gate with 0/1/2 early permits (0 = completely stalled): every append returns in every schedule (a blocking append is a loom deadlock), survivors are in append order, an entry is lost only if at least `capacity` newer entries exist, the newest `capacity` entries of a single producer always survive, and the metrique_queue_overflows counter equals the number of discarded entries.");
 }
